@@ -110,6 +110,28 @@ class Nest:
             res += sx.run_from(b, inner['some'], o.st, fid, set(stops) | {inner['header']})
         return sx, res
 
+    def reach(self, bb, models=(), opaque=(), max_paths=400):
+        """Symbolic execution from the function entry to the entry of block bb: loops that enclose bb are entered once with a
+        fresh symbolic item, every other loop is skipped.  Returns (sx, [Outcome stopped at bb])."""
+        from .sym import SymEx, SYM, STRUCT
+        b = self.b
+        enclosing = [d for d in self.loops if bb in d['loop']['body']]
+        enc_terms = {id(d['next_term']): d for d in enclosing}
+        all_next = {id(d['next_term']): d for d in self.loops}
+
+        def next_model(sx, st, name, declared, args, t):
+            if id(t) in enc_terms:
+                return STRUCT('std::option::Option', ('Some', 1), [('0', SYM('item%d' % enc_terms[id(t)]['header']))])
+            if id(t) in all_next:
+                return STRUCT('std::option::Option', ('None', 0), [])
+            return None
+        sx = SymEx(self.f, models=[next_model] + list(models), max_paths=max_paths, opaque=opaque)
+        argv = [SYM(b.local_name(i) or 'arg%d' % i) for i in b.args()]
+        sx.stop_blocks = {bb}
+        outs = sx.run(b, argv)
+        sx.stop_blocks = set()
+        return sx, [o for o in outs if isinstance(o.ret, tuple) and o.ret[0] == 'stopped' and o.ret[1] == bb]
+
     def arg_values(self, sx, o, bb):
         """Argument values of the call that ends block bb, for an outcome stopped at the entry of bb."""
         st = o.st.fork()
@@ -356,14 +378,14 @@ def full_product_reduction(f, body, is_leaf, kind, want_sources):
     return ok, ('sum over the full product: ' if ok else 'the result is not the sum over pairs: ') + why
 
 
-def single_loop_sum(f, body, models=(), opaque=()):
+def single_loop_sum(f, body, models=(), opaque=(), ret_op=None, nest=None, allow_adaptors=()):
     """Decide: the body returns  0 + sum over ALL items of ONE source sequence of a per-item term.
     Returns (ok, why, info) with info = {'nest', 'loop', 'source': items_source(..), 'terms': [(pc, sym value)], 'item': symbol name}.
     The term is obtained by executing one iteration symbolically with the accumulator set to the symbol `acc`."""
     from .sym import SYM
     from .terms import Norm, NotNumeric
-    n = Nest(f, body, yields=False)
-    o = n.tr.origin({'k': 'move', 'l': 0, 'p': []})
+    n = nest or Nest(f, body, yields=False)
+    o = n.tr.origin(ret_op or {'k': 'move', 'l': 0, 'p': []})
     if o['o'] != 'local' or o['p']:
         return False, 'the result is not an accumulator variable (%s)' % o['o'], None
     acc = o['l']
@@ -375,7 +397,7 @@ def single_loop_sum(f, body, models=(), opaque=()):
     d = loops[0]
     if [x for x in n.loops if x is not d and d['header'] in x['loop']['body']]:
         return False, 'the accumulating loop is nested inside another loop', None
-    if d['adaptors']:
+    if [a for a in d['adaptors'] if a not in allow_adaptors]:
         return False, 'the loop passes through adaptor(s) %s that can drop, truncate or pair up elements' % d['adaptors'], None
     inits = [x for x in defs if x[0] not in d['loop']['body']]
     ok_init = len(inits) >= 1 and all(x[2] == 'assign' and x[3]['r'] == 'use' and x[3]['a'].get('k') == 'const'
